@@ -4,7 +4,8 @@
 #include <set>
 using namespace rg;
 
-// kind 0: block read (addr, n); kind 1: iteration (addr, n, script: stop kind s at k-th call; s 0 never, 1 positive, 2 negative)
+// kind 0: block read (addr, n); kind 1: iteration (addr, n, script: stop kind s at k-th call; s 0 never, 1 positive, 2 negative,
+// 3: at the k-th call the callback itself iterates another range of the same table (k odd: one that ends earlier, k even: one that ends later) and goes on)
 struct Case { TableD t; std::vector<std::vector<uint16_t>> content; int kind; uint32_t addr, n; int s; unsigned k; };
 static Case g_cur;
 static std::string g_prefix;   // history in front of the case in flight (re-layout phase)
@@ -14,10 +15,12 @@ static std::string ser_case(const Case &c) {
     s += vp::fmt("q %d %u %u %d %u\n", c.kind, c.addr, c.n, c.s, c.k);
     return s;
 }
-struct IterCtx { std::vector<uint32_t> seen; int s; unsigned k; };
-static int iter_cb(RegisterTable *, RegisterHandle h, void *arg) {
+struct IterCtx { std::vector<uint32_t> seen; int s; unsigned k; uint32_t in_addr = 0, in_n = 0; std::vector<uint32_t> inner; bool inner_ran = false; RegisterAccess inner_rc; };
+static int inner_cb(RegisterTable *, RegisterHandle h, void *arg) { ((IterCtx *)arg)->inner.push_back(h); return 0; }
+static int iter_cb(RegisterTable *t, RegisterHandle h, void *arg) {
     IterCtx *x = (IterCtx *)arg;
     x->seen.push_back(h);
+    if (x->s == 3) { if (x->seen.size() == x->k) { x->inner_ran = true; x->inner_rc = register_foreach_in(t, x->in_addr, x->in_n, inner_cb, x); } return 0; }
     static const int POS[3] = {1, 7, INT_MAX}, NEG[3] = {-1, -3, INT_MIN};
     if (x->s && x->seen.size() == x->k) return x->s == 1 ? POS[x->k % 3] : NEG[x->k % 3];
     return 0;
@@ -69,15 +72,21 @@ static std::string run_case(const Case &c, std::string &msg) {
         return "";
     }
     IterCtx x; x.s = c.s; x.k = c.k;
+    if (c.s == 3) { if (c.k & 1) { x.in_addr = c.addr; x.in_n = c.n / 2; } else { x.in_addr = c.addr + c.n / 2; x.in_n = c.n / 2 + 6; } }
     RegisterAccess a = register_foreach_in(&lv.t, c.addr, c.n, iter_cb, &x);
     std::vector<uint32_t> want;
     for (size_t ri = 0; ri < c.t.regs.size(); ri++) if (c.n && c.t.regs[ri].end() > c.addr && c.t.regs[ri].addr < c.addr + c.n) want.push_back((uint32_t)ri);
-    bool cut = c.s && c.k >= 1 && c.k <= want.size();
+    if (c.s == 3 && x.inner_ran) {
+        std::vector<uint32_t> iw;
+        for (size_t ri = 0; ri < c.t.regs.size(); ri++) if (x.in_n && c.t.regs[ri].end() > x.in_addr && c.t.regs[ri].addr < x.in_addr + x.in_n) iw.push_back((uint32_t)ri);
+        if (x.inner != iw || x.inner_rc.code != REG_ACCESS_SUCCESS) { msg = vp::fmt("nested iteration over [%u,+%u) from inside the callback visited %zu registers, expected %zu", x.in_addr, x.in_n, x.inner.size(), iw.size()); return "iterate:nested:wrong-registers"; }
+    }
+    bool cut = c.s && c.s != 3 && c.k >= 1 && c.k <= want.size();
     if (cut) want.resize(c.k);
     if (x.seen != want) {
         std::string g, e; for (auto h : x.seen) g += std::to_string(h) + " "; for (auto h : want) e += std::to_string(h) + " ";
-        msg = vp::fmt("iteration over [%u,+%u) visited [%s] expected [%s]", c.addr, c.n, g.c_str(), e.c_str());
-        return x.seen.size() < want.size() ? "iterate:registers-missed" : "iterate:wrong-registers";
+        msg = vp::fmt("iteration over [%u,+%u) visited [%s] expected [%s]%s", c.addr, c.n, g.c_str(), e.c_str(), c.s == 3 ? " (the callback iterated another range in between)" : "");
+        return c.s == 3 ? "iterate:outer-disturbed-by-nested-iteration" : x.seen.size() < want.size() ? "iterate:registers-missed" : "iterate:wrong-registers";
     }
     if (cut && c.s == 2) {
         uint32_t at = c.t.regs[want.back()].addr;
@@ -140,7 +149,7 @@ static void run() {
     vp::CaseScope scope([] { return g_prefix + ser_case(g_cur); });
     size_t ntables = (a.thorough() ? 40000 : 3000) / a.nshards;
     vp::stats().rule = vp::fmt("enum: %zu generated valid tables per shard with randomised content; every (address, length) of a window from 2 below the first area to 2 behind the last as block read "
-                               "(exact-size caller buffer with canary words in front) and as iteration range x callback scripts (never stop; positive / negative result at the k-th call for every k); block reads of 2^31..2^32-1 words from every area (must be refused at the first unmapped address without touching the buffer); histories over one table object: layout A initialised and read once, then the object re-laid-out (area dropped / inserted / split), initialised again and queried at an address layout A mapped under another area handle", ntables);
+                               "(exact-size caller buffer with canary words in front) and as iteration range x callback scripts (never stop; positive / negative result at the k-th call for every k; a nested iteration over another range started from inside the k-th call); block reads of 2^31..2^32-1 words from every area (must be refused at the first unmapped address without touching the buffer); histories over one table object: layout A initialised and read once, then the object re-laid-out (area dropped / inserted / split), initialised again and queried at an address layout A mapped under another area handle", ntables);
     vp::Rng rng(a.seed * 9973 + a.shard);
     FamilyOpts fo; fo.max_size = 8;
     FamilyOpts big; big.max_areas = 6; big.max_size = 20; big.max_regs = 12;   // thorough tier: every 8th table is a larger one
@@ -174,7 +183,8 @@ static void run() {
                 // iteration
                 size_t nov = 0; bool start_in_gap = n > 0, inside_multi = false;
                 for (auto &r : c.t.regs) { if (n && r.end() > addr && r.addr < addr + n) nov++; if (addr >= r.addr && addr < r.end()) { start_in_gap = false; if (addr > r.addr) inside_multi = true; } }
-                for (int s = 0; s < 3; s++) for (unsigned k = (s ? 1 : 0); k <= (s ? (unsigned)nov + 1 : 0u); k++) {
+                for (int s = 0; s < 4; s++) for (unsigned k = (s ? 1 : 0); k <= (s ? (unsigned)nov + 1 : 0u); k++) {
+                    if (s == 3 && (nov < 2 || k > nov)) continue;
                     if (nov > 8 && !(k <= 2 || k + 2 >= nov || k == nov / 2)) continue;   // long runs: stop positions at both ends and the middle
                     c.kind = 1; c.s = s; c.k = k;
                     key = run_case(c, msg);
